@@ -3,12 +3,15 @@
 package worlds
 
 import (
-	"os"
 	"bytes"
+	"crypto/tls"
 	"fmt"
+	"io"
+	"os"
 	"sort"
 	"testing"
 	"time"
+	_ "time/tzdata"
 
 	"github.com/anishathalye/porcupine"
 
@@ -115,9 +118,101 @@ func c12LongHistory(r *simcore.Run) any {
 	return map[string]any{"long_history": true, "renewals": generated, "virtual_years": time.Since(start).Hours() / 8766}
 }
 
+// c12KEStall: the provider behind the real NTS-KE server. A client completes the TLS
+// handshake and then takes its time - seconds to days - before it sends its request,
+// while other traffic keeps the daily renewal going. The cookies it finally gets are
+// sealed when they are issued: under a key that is valid then and was generated no more
+// than the renewal interval before.
+func c12KEStall(r *simcore.Run) any {
+	tp := r.Tape
+	nw := newNTSWorld(r, 1)
+	w := nw.ipWorld
+	pre := time.Duration(tp.Range(0, int64(30*time.Hour), "provider-age"))
+	stall := []time.Duration{0, time.Second, 23 * time.Hour, 25 * time.Hour, 49 * time.Hour, 73 * time.Hour, 100 * time.Hour}[tp.Intn(7, "stall")]
+	otherTraffic := tp.Bool(2, 3, "other-traffic")
+	var summary string
+	w.goSafe("driver", func() {
+		defer r.Finish()
+		if r.Sleep("age", w.cli.Node, pre).Killed {
+			return
+		}
+		raw, err := w.net.DialStream(w.cli, hp(ipSrvIP, kePort))
+		if err != nil {
+			r.Fail("harness", "c12ke/dial", "%v", err)
+			return
+		}
+		cfg := nw.cl.Auth.NTSKEFetcher.TLSConfig.Clone()
+		tc := tls.Client(raw, cfg)
+		if err := tc.Handshake(); err != nil {
+			r.Fail("harness", "c12ke/handshake", "%v", err)
+			return
+		}
+		// stalls of a day and more are walked in steps, with another client's exchange (here:
+		// what it does to the provider) after each step
+		for left := stall; left > 0; {
+			step := min(left, 13*time.Hour)
+			if r.Sleep("stall", w.cli.Node, step).Killed {
+				return
+			}
+			left -= step
+			if otherTraffic {
+				nw.prov.Current()
+			}
+		}
+		if stall >= 23*time.Hour {
+			r.Fault("idle-gap-hours-to-days")
+		}
+		var msg []byte
+		msg = append(msg, keRecord{Type: 1, Critical: true, Body: u16(0)}.bytes()...)
+		msg = append(msg, keRecord{Type: 4, Critical: true, Body: u16(15)}.bytes()...)
+		msg = append(msg, keRecord{Type: 0, Critical: true}.bytes()...)
+		if _, err := tc.Write(msg); err != nil {
+			r.Fail("harness", "c12ke/write", "%v", err)
+			return
+		}
+		resp, _ := io.ReadAll(tc)
+		tc.Close()
+		issuedAt := time.Now()
+		d, err := c14Decode(resp)
+		if err != nil || len(d.Cookie) == 0 {
+			r.Fail("C12", "ke/no-cookies", "a well-formed key exchange after a stall of %v got %d cookies (%v)", stall, len(d.Cookie), err)
+			return
+		}
+		for i, ck := range d.Cookie {
+			var ec ntske.EncryptedServerCookie
+			if err := ec.Decode(ck); err != nil {
+				r.Fail("C12", "ke/cookie-undecodable", "cookie %d: %v", i, err)
+				return
+			}
+			k, ok := nw.prov.Get(int(ec.ID))
+			if !ok {
+				r.Fail("C12", "ke/sealed-under-invalid-key", "cookie %d, issued just now after a stall of %v, is sealed under key %d, which is not valid", i, stall, ec.ID)
+				return
+			}
+			if age := issuedAt.Sub(k.Validity.NotBefore); age > c12Renewal+time.Second {
+				r.Fail("C12", "ke/sealed-under-old-key", "cookie %d, issued just now after a stall of %v, is sealed under key %d, generated %v ago (renewal interval %v)", i, stall, ec.ID, age, c12Renewal)
+				return
+			}
+		}
+		r.Probe("key-exchange-after-stall")
+		summary = fmt.Sprintf("provider aged %v, client stalled %v after the handshake, %d cookies under a key of the last 24 h", pre, stall, len(d.Cookie))
+	})
+	reason := r.Loop(500_000, 0)
+	r.SetVT()
+	r.Drain()
+	if reason != "" && r.Violation() == nil {
+		r.Fail("harness", "c12ke/"+reason, "scheduler stopped: %s", reason)
+	}
+	r.Count("keys", 1)
+	return map[string]any{"key_exchange_stall": true, "summary": summary}
+}
+
 func c12World(t *testing.T, r *simcore.Run) any {
 	if r.Index%2048 == 2047 {
 		return c12LongHistory(r)
+	}
+	if r.Index%64 == 31 {
+		return c12KEStall(r)
 	}
 	activate(r)
 	tp := r.Tape
@@ -127,6 +222,20 @@ func c12World(t *testing.T, r *simcore.Run) any {
 	r.YieldsOn = tp.Bool(3, 4, "yields")
 	r.YieldNum, r.YieldDen = uint64(1+tp.Intn(4, "ynum")), 4
 	preAge := []time.Duration{0, time.Hour, 23 * time.Hour, 25 * time.Hour, 80 * time.Hour}[tp.Intn(5, "preage")]
+
+	// a quarter of the runs live in a time zone with daylight saving time and start within
+	// a few days of a switch (2000-03-26 and 2000-10-29, 01:00 UTC): validity periods are
+	// spans of absolute time whatever the local calendar does
+	if tp.Bool(1, 4, "dst-zone") {
+		if zurich, err := time.LoadLocation("Europe/Zurich"); err == nil {
+			saved := time.Local
+			time.Local = zurich
+			defer func() { time.Local = saved }()
+			sw := []time.Time{time.Date(2000, 3, 26, 1, 0, 0, 0, time.UTC), time.Date(2000, 10, 29, 1, 0, 0, 0, time.UTC)}[tp.Intn(2, "which-switch")]
+			preAge = sw.Sub(r.Start()) - time.Duration(tp.Range(0, int64(100*time.Hour), "before-switch"))
+			r.Probe("local-zone-with-dst-switch")
+		}
+	}
 
 	prov := ntske.NewProvider()
 	start := r.Start()
@@ -439,7 +548,7 @@ func init() {
 	simcore.Registry["C12"] = &simcore.Spec{
 		World: c12World,
 		NonTrivial: func(r *simcore.Run) bool {
-			return (r.Probes["keys-seen"] >= 2 && r.Probes["get-hit"] > 0) || r.Probes["long-history"] > 0
+			return (r.Probes["keys-seen"] >= 2 && r.Probes["get-hit"] > 0) || r.Probes["long-history"] > 0 || r.Probes["key-exchange-after-stall"] > 0
 		},
 	}
 }
